@@ -328,6 +328,11 @@ def main(argv: list[str]) -> int:
             rec = json.load(f)
         if rec.get("kind") == "obligation":
             print(f"replay names a broken obligation, not an input: {rec.get('broken_obligation')}")
+            ds = [d for d in (rec.get("first_disagreements") or []) if isinstance(d, dict) and isinstance(d.get("case"), dict)]
+            if not ds:
+                print(f"VIOLATION property={prop} replay={args.replay} no-failing-input-found")
+                return 1
+            rec = dict(rec, case=ds[0]["case"])      # re-run the first recorded model/implementation disagreement
         ctx = Ctx(prop, tier, seed)
         if os.path.exists(DRIVER_BIN):
             ctx.driver = Driver()
@@ -340,6 +345,10 @@ def main(argv: list[str]) -> int:
             v = ctx.violations[0]
             print(f"replayed: oracle={v['oracle']} detail={json.dumps(v['detail'], default=str)[:400]}")
             print(f"VIOLATION property={prop} replay={args.replay}")
+            return 1
+        if getattr(ctx, "disagreements", None):
+            print(f"replayed: model and implementation still differ: {json.dumps(ctx.disagreements[0], default=str)[:300]}")
+            print(f"VIOLATION property={prop} replay={args.replay} no-failing-input-found")
             return 1
         print("replay no longer fails")
         return 0
